@@ -322,16 +322,20 @@ class QvmCode(BaseCode):
 
                 # Convert the argument to the dest type
                 cur_type = expr.Type.from_type_char(cur.type_char)
+                if cur_type.is_integral and \
+                   isinstance(arg, float):
+                    # perform rounding first if casting from float to
+                    # integer (infinities and NaN cannot be rounded;
+                    # they do not fit any integral type either)
+                    try:
+                        arg = round(arg)
+                    except (OverflowError, ValueError):
+                        pass
 
                 # Fold only if the value can fit in target type
                 # (otherwise we'll leave it and there will be a
                 # conversion error in run time)
                 if cur_type.can_hold(arg):
-                    if cur_type.is_integral and \
-                       isinstance(arg, float):
-                        # perform rounding first if casting from float
-                        # to integer
-                        arg = round(arg)
                     cur_type = expr.Type.from_type_char(cur.type_char)
                     arg = cur_type.py_type(arg)
 
